@@ -542,7 +542,7 @@ def extract_item(block, unit, fired_total, clauses, meta_items, mode='verus'):
             m = re.match(r'^(\S+)\s+/(.*)/\s*=>\s*/(.*)/\s*(\{(\d+)(?:,(\d+))?\})?$', a, re.S)
             if not m:
                 raise GenError('template line %s: bad //@rw' % ln)
-            rule, pat, rep = m.group(1), m.group(2), m.group(3).replace('\\/', '/')
+            rule, pat, rep = m.group(1), m.group(2), m.group(3).replace('\\/', '/').replace('\\&', '&')
             cnt = [0]
 
             def f(mo):
